@@ -1243,8 +1243,9 @@ func (e *Enc) callWrites(li *loopInfo, ci ssa.CallInstruction, ws writeSets) boo
 		var args []Term
 		for _, a := range c.Args {
 			if !e.definedOutside(li, a) {
-				inv = false
-				break
+				// an argument computed inside the loop: harmless unless a modifies target mentions it
+				args = append(args, T("POISON", e.tr.sortOf(a.Type())))
+				continue
 			}
 			args = append(args, e.val(a))
 		}
